@@ -21,11 +21,15 @@ DEMODIR=$(python3 -c "import json;print(json.load(open('$SRC/meta.json'))['demo_
 DEMORUN=$(python3 -c "import json;print(json.load(open('$SRC/meta.json'))['demo_run'])")
 if ! go build ./... >>"$LOG" 2>&1; then echo "RESULT $ID build-fails"; exit 1; fi
 PKGS="./fsm/... ./airgapped ./client/services/... ./client/repositories/... ./client/modules/... ./client/api/... ./client/types/... ./storage/file_storage ./pkg/... ./cmd/dc4bc_cli ./dkg/..."
-if ! go test -count=1 -vet=off $PKGS >>"$LOG" 2>&1; then
-  # airgapped uses a fixed /tmp path: retry once
-  sleep 2
-  if ! go test -count=1 -vet=off $PKGS >>"$LOG" 2>&1; then echo "RESULT $ID suite-fails-with-change"; tail -30 "$LOG"; exit 1; fi
-fi
+ok=0
+for try in 1 2 3 4 5 6; do
+  go test -count=1 -vet=off $PKGS > "$LOG.suite" 2>&1 && { ok=1; break; }
+  # airgapped uses a fixed /tmp path shared with other jobs: retry on that collision only
+  grep -q "resource temporarily unavailable" "$LOG.suite" || break
+  sleep 20
+done
+cat "$LOG.suite" >> "$LOG"
+if [ $ok -ne 1 ]; then echo "RESULT $ID suite-fails-with-change"; grep -E "^(--- FAIL|FAIL|panic)" "$LOG.suite" | head; exit 1; fi
 mkdir -p "$DEMODIR"
 cp "$SRC/demo_test.go" "$DEMODIR/zz_demo_${ID//-/_}_test.go"
 if (eval "$DEMORUN") >>"$LOG" 2>&1; then echo "RESULT $ID demo-passes-with-change(should fail)"; exit 1; fi
